@@ -229,6 +229,12 @@ impl Property for C17 {
             vfail!("harness-serialize", "harness: serialiser gives {} bytes, layout model {} for {} {}", want.len(), size_ref, name, v.show());
         }
         let n = size_ref + extra;
+        if model::encode(ty, &v, size_ref, 0, &mut model::Canonical).is_err() {
+            // e.g. a sealed FlexVec item whose stride does not fit the offset type: the content has no
+            // encoding at all, the emplacer must refuse it (C03 / C15 check that it does)
+            st.label("skipped: the reference says the value is not representable");
+            return Ok(());
+        }
         st.shapes_seen.insert(name.clone());
         let mut images: Vec<Vec<u8>> = vec![];
         for (k, off) in offs.iter().enumerate() {
